@@ -676,15 +676,110 @@ def mean(t, axis=None):
     return C.binop("/", s, n) if not isinstance(s, Tensor) else tensor_binop("/", s, n)
 
 
-def close_sums(pst, prove):
+def _node_names(node):
+    """names of the function symbols that denote the node's value / argument"""
+    nm = getattr(node, "_names", None)
+    if nm is None:
+        ps = [z3.Int(f"nn!{k}") for k in range(node.nparams)]
+        nm = set()
+        for f in (node.vf, node.af):
+            if f is not None:
+                try:
+                    nm.add(C.to_z3(_apply(f, ps)).decl().name())
+                except (z3.Z3Exception, AttributeError):
+                    pass
+        node._names = nm = frozenset(nm)
+    return nm
+
+
+def _body_symbols(node):
+    """uninterpreted symbols occurring in the node's integrand (cached)"""
+    sy = getattr(node, "_syms", None)
+    if sy is None:
+        sy = set()
+        try:
+            e = C.to_z3(node.body(*[z3.Int(f"bs!{k}") for k in range(node.nparams + 1)]))
+            seen, stack = set(), [e]
+            while stack and len(seen) < 100000:
+                x = stack.pop()
+                if x.get_id() in seen:
+                    continue
+                seen.add(x.get_id())
+                if z3.is_app(x):
+                    if x.decl().kind() == z3.Z3_OP_UNINTERPRETED:
+                        sy.add(x.decl().name())
+                    stack.extend(x.children())
+        except (z3.Z3Exception, Unsupported, PyRaise):
+            sy = None
+        node._syms = sy = frozenset(sy) if sy is not None else _ANY
+    return sy
+
+
+class _Any(frozenset):
+    """'may mention anything' (the integrand could not be inspected)"""
+
+    def __and__(self, other):
+        return other
+
+    __rand__ = __and__
+
+    def __or__(self, other):
+        return self
+
+    __ror__ = __or__
+
+
+_ANY = _Any()
+
+
+def _relevant_nodes(nodes, goal):
+    """indices of the reduction nodes whose value occurs in `goal`, closed under
+    'occurs in the integrand of a relevant node'"""
+    syms = set()
+    seen, stack = set(), [goal]
+    while stack and len(seen) < 200000:
+        x = stack.pop()
+        if x.get_id() in seen:
+            continue
+        seen.add(x.get_id())
+        if z3.is_quantifier(x):
+            stack.append(x.body())
+        elif z3.is_app(x):
+            if x.decl().kind() == z3.Z3_OP_UNINTERPRETED:
+                syms.add(x.decl().name())
+            stack.extend(x.children())
+    rel = set()
+    changed = True
+    while changed:
+        changed = False
+        for k, nd in enumerate(nodes):
+            if k not in rel and (_node_names(nd) & syms):
+                rel.add(k)
+                bs = _body_symbols(nd)
+                if isinstance(bs, _Any):
+                    return None
+                syms |= bs
+                changed = True
+    return rel
+
+
+def close_sums(pst, prove, goal=None):
     """Congruence rule for reduction nodes: pointwise equal bodies (same
-    dimension) => equal values.  Returns number of equalities added."""
+    dimension) => equal values.  Returns number of equalities added.
+    goal: when given, only nodes that occur in it (directly or nested in the
+    integrand of such a node) are considered - the caller falls back to the
+    full closure when that was not enough."""
     added = 0
     nodes = pst.sums
+    rel = _relevant_nodes(nodes, goal) if goal is not None else None
     for _round in range(4):
         new = 0
         for a_i in range(len(nodes)):
+            if rel is not None and a_i not in rel:
+                continue
             for b_i in range(a_i + 1, len(nodes)):
+                if rel is not None and b_i not in rel:
+                    continue
                 a, b = nodes[a_i], nodes[b_i]
                 if a.kind != b.kind or a.nparams != b.nparams or not dim_eq(a.dim, b.dim) or a.sort != b.sort:
                     continue
@@ -701,19 +796,25 @@ def close_sums(pst, prove):
                     goal = z3.Implies(z3.And(prng(*sk[:-1]), sk[-1] >= 0, sk[-1] < dz), a.body(*sk) == b.body(*sk))
                 except (z3.Z3Exception, Unsupported, PyRaise):
                     continue
-                # a pair that was not provable is retried only when new facts arrived
-                # (quantified hypotheses, congruence equalities, harness assumptions);
+                # a pair that was not provable is retried only when facts arrived that can
+                # matter for it: harness facts (hypotheses / assumptions), or a congruence
+                # equality about a reduction nested in one of the two integrands;
                 # a ground-instantiation 'sat' is enough to give up (quick: no MBQI re-check)
-                fkey = (a_i, b_i, len(pst.qfacts), pst.ghost.get("congr_n", 0), len(pst.pc) - pst.ghost.get("goal_facts", 0))
-                failed_pairs = pst.ghost.setdefault("congr_failed", set())
-                if fkey in failed_pairs:
-                    continue
+                failed_pairs = pst.ghost.setdefault("congr_failed", {})
+                clog = pst.ghost.setdefault("congr_log", [])
+                user_facts = len(pst.qfacts) + len(pst.pc) - pst.ghost.get("goal_facts", 0) - pst.ghost.get("congr_facts", 0)
+                prev = failed_pairs.get((a_i, b_i))
+                if prev is not None and prev[0] == user_facts:
+                    syms = _body_symbols(a) | _body_symbols(b)
+                    if not any(names & syms for names in clog[prev[1]:]):
+                        continue
                 v, *_ = prove(pst.pc, pst.qfacts, goal, extra_pool=sk, timeout_ms=3000, quick=True)
                 if v != "unsat":
-                    failed_pairs.add(fkey)
+                    failed_pairs[(a_i, b_i)] = (user_facts, len(clog))
                 if v == "unsat":
                     a.equal_to.add(b_i)
-                    pst.ghost["congr_n"] = pst.ghost.get("congr_n", 0) + 1
+                    clog.append(_node_names(a) | _node_names(b))
+                    pst.ghost["congr_facts"] = pst.ghost.get("congr_facts", 0) + (1 if a.af is None else 2)
                     if a.nparams == 0:
                         pst.assume(a.vf() == b.vf())
                         if a.af is not None:
@@ -946,6 +1047,28 @@ def expand_dims(t, axis):
     return index(t, tuple(idx))
 
 
+def _divmod_affine(o, d):
+    """(o // d, o % d); for a concrete divisor d > 0 and an index of the syntactic
+    form d*q + r with a numeral 0 <= r < d (what splitting a merged axis produces)
+    the exact quotient and remainder (q, r) are returned instead of div / mod terms"""
+    if isinstance(d, int) and d > 0 and isinstance(o, Sym) and o.z.sort() == INT:
+        e = z3.simplify(o.z)
+        terms = list(e.children()) if z3.is_add(e) else [e]
+        r, q = 0, None
+        ok = True
+        for tm in terms:
+            if z3.is_int_value(tm):
+                r += tm.as_long()
+            elif z3.is_mul(tm) and tm.num_args() == 2 and z3.is_int_value(tm.arg(0)) and tm.arg(0).as_long() == d and q is None:
+                q = tm.arg(1)
+            else:
+                ok = False
+                break
+        if ok and q is not None and 0 <= r < d:
+            return Sym(q), r
+    return C.binop("//", o, d), C.binop("%", o, d)
+
+
 def reshape(t, shape):
     t = as_tensor(t)
     if len(shape) == 1 and isinstance(shape[0], (tuple, list)):
@@ -1023,15 +1146,15 @@ def reshape(t, shape):
                 d1 = t.shape[1]
 
                 def fn(*o):
-                    q = C.binop("//", o[0], d1)
-                    r = C.binop("%", o[0], d1)
+                    q, r = _divmod_affine(o[0], d1)
                     return t.at(q, r, *o[1:])
 
                 rows = None
                 if t.rows is not None and t.ndim >= 3:
                     # the feature axis is untouched: row f of the merged tensor is row (f // B, f % B) of t
                     def rows(*b):
-                        return t.rows(C.to_z3(C.binop("//", b[0], d1)), C.to_z3(C.binop("%", b[0], d1)), *b[1:])
+                        q, r = _divmod_affine(b[0], d1)
+                        return t.rows(C.to_z3(q), C.to_z3(r), *b[1:])
 
                 return Tensor((norm_dim(merged),) + tuple(t.shape[2:]), fn, t.sort, t.gdeps, rows=rows)
     if len(tgt) == t.ndim + 1:
